@@ -999,5 +999,131 @@ def r4e(cx):
                      'contains a file `ab` is expanded to `alias ab` - the listing does not recreate the alias', loc='%s:%s' % (h['file'], h['line']))
 
 
+# ---------------------------------------------------------------- added after wave-3 seeded changes
+TOKEN = 'yash_syntax::parser::lex::core::Token'
+TOKEN_ID = 'yash_syntax::parser::lex::core::TokenId'
+PARSER_SC = "yash_syntax::parser::simple_command::<impl yash_syntax::parser::core::Parser<'_, '_>>::"
+BUILDER_EMPTY = 'yash_syntax::parser::simple_command::Builder::is_empty'
+TOKEN_PRODUCERS = [re.compile(r"^yash_syntax::parser::core::Parser::<'a, 'b>::(peek_token|take_token_raw|take_token_auto|take_token_manual)$")]
+
+
+def _token_switches(F, body, du):
+    """Switches on the discriminant of `<token>.id` (type TokenId, outer discriminant) where <token> is the result of one of the
+    parser's token producers: [(switch block, {target: labels}, producing call)]."""
+    out = []
+    for u in sorted(body.live_blocks()):
+        ec = Q.edge_condition(F, body, du, u)
+        if not ec or ec[0]['k'] != 'discr' or (ec[0].get('ty') or '').lstrip('&') != TOKEN_ID:
+            continue
+        pl = du.deref_origin(ec[0]['pl'])
+        proj = [e for e in (pl.get('p') or []) if e != '*']
+        if len(proj) != 1 or not isinstance(proj[0], dict) or proj[0].get('f') != 'id' or proj[0].get('adt') != TOKEN:
+            continue
+        src = Q.value_source(body, du, {'cp': {'l': pl['l']}})
+        if src is None or not Q.callee_is(src, TOKEN_PRODUCERS):
+            continue
+        out.append((u, ec[1], src))
+    return out
+
+
+def _dead_else_edges(F, body, du):
+    """`otherwise` edges of switches on an enum discriminant whose explicit targets already cover every variant (MIR building keeps
+    such an edge, e.g. to the fall-through of an exhaustive or-pattern `Token(None) | Token(Some(_))`): never taken."""
+    out = set()
+    for u in body.live_blocks():
+        t = body.term(u)
+        if t['k'] != 'switch':
+            continue
+        ec = Q.edge_condition(F, body, du, u)
+        if not ec or ec[0]['k'] != 'discr':
+            continue
+        names = Q.variant_names(F, ec[0].get('ty') or '')
+        if names and {v for v, _ in t['ts']} >= set(range(len(names))) and t['else'] not in {tgt for _, tgt in t['ts']}:
+            out.add((u, t['else']))
+    return out
+
+
+def _moves_token_word(body, du, operand, depth=8):
+    """The operand is (a move of) the `word` field of a Token."""
+    p = Q.operand_place(operand)
+    for _ in range(depth):
+        if p is None:
+            return False
+        if any(isinstance(e, dict) and e.get('f') == 'word' and e.get('adt') == TOKEN for e in p.get('p') or []):
+            return True
+        d = du.single_def(p['l'])
+        if d is None or d[1] == 't' or d[2]['k'] != 'assign' or d[2]['rv']['k'] != 'use':
+            return False
+        p = Q.operand_place(d[2]['rv']['o'])
+    return False
+
+
+@RS.rule('C07.R6', 'K-PASS', 'words that yash_quote leaves bare because they merely LOOK like reserved words (`if`, `do`, `{`, `!`, `[[` ..) are '
+         'accepted wherever a listing puts them: every word token - Token(None) and Token(Some(keyword)) alike - becomes an array element '
+         'in array_values and a command word after the first in simple_command')
+def r6(cx):
+    import facts as _facts
+    F = cx.F
+    # (a) array_values: `name=(w1 w2 ..)` - printed by typeset -p / set / export -p / readonly -p for arrays
+    root = PARSER_SC + 'array_values'
+    body = F.inlined(F.main_body(root))
+    cx.fn(root)
+    du = Q.DefUse(body)
+    sw = [x for x in _token_switches(F, body, du) if Q.callee_is(x[2], [re.compile(r'::take_token_(auto|raw|manual)$')])]
+    cx.require(sw, 'array_values: no switch on the kind (TokenId) of a token taken with take_token_* was found')
+    pushes = [(b, t) for b, t in Q.find_calls(body, ['alloc::vec::Vec::<T, A>::push']) if len(t['a']) > 1 and _moves_token_word(body, du, t['a'][1])]
+    takers = {b for b, t in Q.find_calls(body, TOKEN_PRODUCERS)}
+    for u, labels, src in sw:
+        starts = sorted(tgt for tgt, labs in labels.items() if ('variant', 'Token') in labs)
+        cx.site('array_values: token kind tested at %s; %d Token edge(s); %d site(s) pushing the token\'s word' % (body.loc(body.term(u)), len(starts), len(pushes)))
+        if not starts or not pushes:
+            cx.violation(root, 'array-element-never-taken', 'array_values has no arm that stores a word token as an element: `a=(x y)` cannot be parsed',
+                         loc=body.loc(body.term(u)))
+            continue
+        for s in starts:
+            p = Q.shortest_path_flags(F, body, du, s, takers | set(body.return_blocks()), removed={b for b, t in pushes}, removed_edges=_dead_else_edges(F, body, du))
+            if p is not None:
+                cx.violation(root, 'array-element-word-refused', 'a word token can leave array_values\' element arm without being stored as an element '
+                             '(e.g. only Token(None) is accepted): the quoter prints an element such as `if`, `done`, `{` or `!` bare, the lexer '
+                             'tags it Token(Some(keyword)) even here, so the listing `a=(x if y)` printed by typeset -p / set is a syntax error '
+                             'when read back - the array is not recreated', loc=body.loc(body.term(u)),
+                             path=Q.render_path(body, p))
+                break
+    # (b) simple_command: `typeset do`, `readonly -- if` .. - a reserved word is special only where NOTHING of the command has been read yet
+    root = PARSER_SC + 'simple_command'
+    mb = F.main_body(root)
+    base = _facts.same_module_private(F, mb.root)
+    body = F.inlined(mb, lambda callee: callee != BUILDER_EMPTY and base(callee))
+    cx.fn(root)
+    du = Q.DefUse(body)
+    sw = [x for x in _token_switches(F, body, du) if Q.callee_is(x[2], [re.compile(r'::peek_token$')])]
+    cx.require(sw, 'simple_command: no switch on the kind (TokenId) of the peeked token was found')
+    takes = {b for b, t in Q.find_calls(body, [re.compile(r'::take_token_(auto|raw|manual)$')])}
+    cx.require(takes, 'simple_command no longer consumes tokens with take_token_*')
+    empty_true = set()
+    for b, t in Q.find_calls(body, [BUILDER_EMPTY]):
+        for v in sorted(body.live_blocks()):
+            ec = Q.edge_condition(F, body, du, v)
+            if ec and ec[0]['k'] == 'call' and ec[0]['t'] is t:
+                for tgt, labs in ec[1].items():
+                    if ('bool', True) in labs:
+                        empty_true.add((v, tgt))
+    for u, labels, src in sw:
+        starts = sorted(tgt for tgt, labs in labels.items() if ('variant', 'Token') in labs)
+        cx.site('simple_command: peeked token kind tested at %s; %d Token edge(s); %d `result.is_empty()` true edge(s) exempted' %
+                (body.loc(body.term(u)), len(starts), len(empty_true)))
+        if not starts:
+            cx.violation(root, 'command-word-never-taken', 'simple_command has no arm for word tokens', loc=body.loc(body.term(u)))
+        for s in starts:
+            p = Q.shortest_path_flags(F, body, du, s, set(body.return_blocks()), removed=takes, removed_edges=empty_true | _dead_else_edges(F, body, du))
+            if p is not None:
+                cx.violation(root, 'command-word-refused', 'a word token can end the simple command without being consumed although something of the '
+                             'command has already been read (not on the `result.is_empty()` edge): an argument spelled like a reserved word, as in '
+                             'the listing line `typeset do` / `readonly -- if` of a variable so named, is cut off the command when read back',
+                             loc=body.loc(body.term(u)), path=Q.render_path(body, p))
+                break
+
+
 # --- explanation addendum (generated catalogue in DESIGN.md reads RS.explanation)
 RS.explanation += ' Added later: the `--` separator test of both typeset listings covers every option prefix of the typeset parser (R4c); the function listing must know the reserved words (R4d, open finding); the alias listing must quote the joined word (R4e).'
+RS.explanation += ' Words spelled like reserved words, which the quoter leaves bare, are accepted by the parser where listings put them: in array_values every Token(_) edge stores the word as an element, and in simple_command a Token ends the command unconsumed only on the result.is_empty() edge (R6).'
